@@ -152,7 +152,8 @@ class C07(netlib.Guarded, Prop):
                   "proved; 'persisted before' relies on SQLite allocating increasing rowids (trusted); after rollback "
                   "exactness is checked for job-bound steps only, by tag, and not for loop shapes")
     TECHNIQUE = "proven-sound checker evaluated in Coq on table dumps + Coq theorem on the write discipline"
-    RULE = ("the C04 workloads (see C04, incl. Deploy/Schedule/Execute pipelines with misaligned input ports) with the "
+    RULE = ("the C04 workloads (see C04, incl. Deploy/Schedule/Execute pipelines with misaligned input ports, list-merge "
+            "combinators over 2-3 source ports) and DefaultTransformer shapes with a persisted default token, with the "
             "database dumped at quiescence, plus 12 executions with injected faults and rollback recovery (C16 generator); non-trivial = at least 3 emitted "
             "tokens; distinct = distinct canonical JSON")
     TRUSTED = ("SQLite INTEGER PRIMARY KEY allocation order; aiosqlite; the dump (SELECT over token and provenance) "
